@@ -172,6 +172,13 @@ package parser
 //@ func (*lexer).scanOp
 //@   ensures[C07] consumes-exactly-the-operator: old(len(l.aliases)) == 0 ==> len(l.aliases) == 0 && srcpos() == old(srcpos()) + oplen(result) - 1
 //@   requires r == '&' || r == '(' || r == ')' || r == ';' || r == '<' || r == '>' || r == '|'
+// "((" opens an arithmetic evaluation only outside parentheses and "))" closes
+// it only when exactly its own two parentheses are still open, so a stray
+// ")" inside leaves the construct unbalanced (and rejected) instead of being
+// absorbed into the expression.
+//@   ensures[C03] arithmetic-opens-outside-parentheses: result == LAE ==> old(l.paren) == 0 && l.paren == 2 && l.arithExpr
+//@   ensures[C03] arithmetic-closes-at-its-own-depth: result == RAE ==> old(l.arithExpr) && old(l.paren) == 2 && l.paren == 0 && !l.arithExpr
+//@   ensures[C03] parentheses-are-counted: (result == '(' ==> l.paren == old(l.paren) + 1 && l.arithExpr == old(l.arithExpr)) && (result == ')' ==> l.paren == old(l.paren) - 1 && l.arithExpr == old(l.arithExpr))
 //@   ensures result > 0 && result != WORD && result != IO_NUMBER && result != NAME && result != ASSIGNMENT_WORD && len(l.word) == old(len(l.word))
 // Positions are taken from the line/column count at the moment a token or a
 // word part begins (mark), never while text comes from an alias value; a
